@@ -931,7 +931,7 @@ class PrepareMessage(_MessageType):
                     "".format(flags=flags, pv=protocol_version))
 
         if ProtocolVersion.uses_keyspace_flag(protocol_version):
-            if self.keyspace:
+            if self.keyspace is not None:
                 write_string(f, self.keyspace)
 
 
@@ -995,7 +995,7 @@ class BatchMessage(_MessageType):
                 write_long(f, self.timestamp)
 
             if ProtocolVersion.uses_keyspace_flag(protocol_version):
-                if self.keyspace is not None:
+                if self.keyspace:
                     write_string(f, self.keyspace)
 
 
